@@ -38,6 +38,7 @@ class Env(object):
         self.execs = []  # (fn name, normalised args, token)
         self.tok = itertools.count(1)
         self.fail_next = False
+        self.fail_keys = set()
         self.block = False
         self.items = itertools.count()
         self.now = 1000
@@ -80,7 +81,7 @@ def body(name, a, b, c):
     e.execs.append((name, (a, b, c), t))
     if e.block:
         yield harness.HItem(e.rt, 0, "c%d" % next(e.items), ("c13", t))
-    if e.fail_next:
+    if e.fail_next or (a, b, c) in e.fail_keys:
         e.fail_next = False
         raise UserErr(("body", name, t))
     return tokval(name, t)
@@ -389,6 +390,54 @@ def run_history(kind, hist, seed):
                         d[k] = v
                 if viol:
                     return
+            elif op[0] == "pair_fail":
+                # two different keys of one instance in one yield, the body of ONE of them raises (before or after
+                # the other finishes): the failure is not cached, the other key's value is - also when it is the
+                # first thing this instance ever caches
+                _, iname, k1, k2, which = op
+                k1, k2 = tuple(k1), tuple(k2)
+                if iname not in insts:
+                    insts[iname] = K()
+                env.block = True
+                env.fail_next = False
+                d = pmodel.setdefault(iname, {})
+                hits = [k1 in d, k2 in d]
+                bad = (k1, k2)[which]
+                env.fail_keys = {bad}
+                nexec = len(env.execs)
+                (a1, kw1), (a2, kw2) = spell(k1, 0), spell(k2, 1)
+                ts = [insts[iname].m.asynq(*a1, **kw1), insts[iname].m.asynq(*a2, **kw2)]
+                try:
+                    try:
+                        yield ts
+                    except UserErr:
+                        pass
+                finally:
+                    env.fail_keys = set()
+                stats["parallel"] += 1
+                stats["pairs_with_one_failing_body"] = stats.get("pairs_with_one_failing_body", 0) + 1
+                for j, (k, t) in enumerate(zip((k1, k2), ts)):
+                    if not t.is_computed():
+                        # (the consumer was resumed with the other's failure first: finish this one)
+                        try:
+                            t.value()
+                        except UserErr:
+                            pass
+                    failed = t.error() is not None
+                    if hits[j]:
+                        if failed or t.value() != d[k]:
+                            viol.append(("hit-returned-wrong-value", {"op": op, "expected": d[k], "observed": repr(t.error() or t.value())[:80]}))
+                            return
+                    elif k == bad:
+                        if not failed:
+                            viol.append(("raising-body-did-not-raise-to-caller", {"op": op}))
+                            return
+                    else:
+                        toks = [tk for (n, na, tk) in env.execs[nexec:] if na == k]
+                        if failed or len(toks) != 1 or t.value() != tokval("m", toks[0]):
+                            viol.append(("miss-returned-wrong-value", {"op": op, "observed": repr(t.error() or t.value())[:80]}))
+                            return
+                        d[k] = t.value()
             elif op[0] == "pair_same":
                 # the SAME key of the per-instance cache asked for twice in one yield (two spellings): on a miss both
                 # bodies run, each call gets its own body's result, the later finisher's stays cached
@@ -619,6 +668,9 @@ def make_history(rnd, kind):
             ops.append(["pair", iname, list(k1), list(k2), rnd.randrange(6), rnd.randrange(6)])
         elif kind == "per_instance" and r < 0.25:
             ops.append(["pair_same", iname, list(rnd.choice(keys)), rnd.randrange(6), rnd.randrange(6)])
+        elif kind == "per_instance" and r < 0.35 and len(keys) >= 2:
+            k1, k2 = rnd.sample(keys, 2)
+            ops.append(["pair_fail", iname, list(k1), list(k2), rnd.randrange(2)])
         elif kind.startswith("lru") and r < 0.12:
             calls = [[list(rnd.choice(keys)), rnd.randrange(6)] for _ in range(rnd.randint(2, 4))]
             if rnd.random() < 0.5:
@@ -677,7 +729,7 @@ def run_unit(unit, progress):
 
 def reach(c, tier):
     out = []
-    for k in ["histories_" + k for k in KINDS] + ["hits", "misses", "evictions", "raises", "spelling_pairs", "gc_checks", "parallel", "recomputes", "gathers", "gathers_with_overlapping_misses_of_one_key", "dirty_while_refresh_in_flight", "stale_refresh_finishing_after_a_newer_one", "overlapping_misses_of_one_key_per_instance"]:
+    for k in ["histories_" + k for k in KINDS] + ["hits", "misses", "evictions", "raises", "spelling_pairs", "gc_checks", "parallel", "recomputes", "gathers", "gathers_with_overlapping_misses_of_one_key", "dirty_while_refresh_in_flight", "stale_refresh_finishing_after_a_newer_one", "overlapping_misses_of_one_key_per_instance", "pairs_with_one_failing_body"]:
         if not c.get(k):
             out.append("%s is zero" % k)
     return out
